@@ -402,7 +402,64 @@ func (r *replayBuilder) stubIface(T types.Type) string {
 // replayable (or as an extra attempt).
 var stringPool = []string{"", ".", "..", "../x", "a/../..", "/", "a//b", "0-0", "-", "a", "A", "x:y", "\x00", "*"}
 
+// witness pool: hand-written concrete adversarial inputs attached to an
+// obligation (an in-package test that prints REPLAY-PANIC / REPLAY-POST-FALSE
+// when the failure manifests on the real code). Used when the solver's model
+// is not executable (uninterpreted sorts, foreign interfaces, closures).
+func tryWitness(L *Loaded, o *Oblig) *ReplayResult {
+	if o == nil {
+		return nil
+	}
+	name := sanitize(o.Name)
+	all, _ := filepath.Glob(filepath.Join(verifDir, "witness", "*.go.txt"))
+	var matches []string
+	for _, m := range all {
+		if strings.HasPrefix(name, strings.TrimSuffix(filepath.Base(m), ".go.txt")) {
+			matches = append(matches, m)
+		}
+	}
+	for _, m := range matches {
+		b, err := os.ReadFile(m)
+		if err != nil {
+			continue
+		}
+		src := string(b)
+		pkg := ""
+		for _, ln := range strings.Split(src, "\n") {
+			if strings.HasPrefix(ln, "// package-path: ") {
+				pkg = strings.TrimSpace(strings.TrimPrefix(ln, "// package-path: "))
+			}
+		}
+		if pkg == "" {
+			continue
+		}
+		out, _ := runOverlayTest(L, pkg, src)
+		res := &ReplayResult{TestSource: src, Output: out, Pkg: pkg, Mode: "witness-pool (" + filepath.Base(m) + ")"}
+		if strings.Contains(out, "REPLAY-PANIC:") || strings.Contains(out, "REPLAY-POST-FALSE") {
+			res.Reproduced = true
+			l := firstLineContaining(out, "REPLAY-PANIC:")
+			if l == "" {
+				l = firstLineContaining(out, "REPLAY-POST-FALSE")
+			}
+			res.Summary = "reproduced on the real code with a witness-pool input: " + l
+			return res
+		}
+	}
+	return nil
+}
+
 func tryReplay(L *Loaded, id string, g *Group, o *Oblig) *ReplayResult {
+	r := tryModelReplay(L, id, g, o)
+	if r != nil && r.Reproduced {
+		return r
+	}
+	if w := tryWitness(L, o); w != nil {
+		return w
+	}
+	return r
+}
+
+func tryModelReplay(L *Loaded, id string, g *Group, o *Oblig) *ReplayResult {
 	if o == nil || o.Result == nil || o.Result.Answer != "sat" {
 		return nil
 	}
